@@ -408,6 +408,7 @@ int main(int argc, char ** argv) {
     if (mode == "replay") {
         std::vector<PPath> paths = load_paths(argv[3]);
         RunStats st;
+        int hangs = 0;
         for (size_t pi = 0; pi < paths.size(); pi++) {
             const PPath & p = paths[pi];
             Scenario * sc = byname[p.init.at(1)];
@@ -447,12 +448,70 @@ int main(int argc, char ** argv) {
                 }
                 if (got != s.expect) { st.mismatch(pi, si, sc->name + " " + join_words(s.act), s.expect, got); bad = true; }
             }
-            std::string v = finish_session(S, 200000);
-            if (!bad && !v.empty() && sc->name.find("dl") == std::string::npos)
+            std::string v = finish_session(S, bad ? 20000 : 200000);
+            if (!bad && !v.empty())
                 st.mismatch(pi, p.steps.size(), sc->name + " drain", "\"session terminates\"", "\"" + v + "\"");
+            if (!v.empty() && ++hangs >= 3) break;      // every further path would burn its step budget as well
         }
         vsched::reset();
         st.print("rsession");
+        return 0;
+    }
+    if (mode == "weak") {
+        // drv_* weak <scenarios> <paths> <out>: the thread sequence of every path is used as a schedule (hints);
+        // what is recorded is the sequence of DISTINCT projections of the real state (one line per execution).
+        std::vector<PPath> paths = load_paths(argv[3]);
+        FILE * out = fopen(argv[4], "w");
+        long n = 0, hangs = 0;
+        std::string firstHang;
+        for (size_t pi = 0; pi < paths.size() && hangs < 3; pi++) {
+            const PPath & p = paths[pi];
+            Scenario * sc = byname[p.init.at(1)];
+            if (!sc) return 2;
+            Session S;
+            start_session(S, *sc);
+            std::vector<std::string> steps;
+            steps.push_back(project(S));
+            auto note = [&] { std::string g = project(S); if (g != steps.back()) steps.push_back(g); };
+            for (size_t si = 0; si < p.steps.size(); si++) {
+                const std::string & t = p.steps[si].act.at(0);
+                if (t == "spur") {
+                    const std::string & w = p.steps[si].act.at(1);
+                    vsched::spurious_wake(w == "A" ? 0 : w == "U" ? 1 : 2);
+                    note();
+                    continue;
+                }
+                int tid = t == "A" ? 0 : t == "U" ? 1 : 2;
+                if (tid < vsched::nthreads() && vsched::runnable(tid)) { vsched::step(tid); note(); }
+            }
+            long budget = 300000;
+            std::string verdict;
+            for (;;) {
+                bool any = false;
+                for (int t = 0; t < vsched::nthreads(); t++)
+                    if (vsched::runnable(t)) { vsched::step(t); note(); any = true; if (--budget <= 0) break; }
+                if (budget <= 0) { verdict = "livelock"; break; }
+                if (!any) { verdict = vsched::all_finished() ? "" : "deadlock"; break; }
+            }
+            fprintf(out, "{\"scen\":\"%s\",\"steps\":%s}\n", sc->name.c_str(),
+                    jarr(steps.begin(), steps.end(), [](const std::string & x) { return x; }).c_str());
+            n++;
+            if (!verdict.empty()) {
+                hangs++;
+                if (firstHang.empty()) firstHang = sc->name + ": " + verdict + " at " + steps.back();
+            }
+            finish_session(S, 20000);
+        }
+        fclose(out);
+        vsched::reset();
+        JObj o;
+        o.puts("driver", "session_weak").put("paths", n).put("mismatches", hangs);
+        if (!firstHang.empty()) {
+            std::string d;
+            for (char c : firstHang) d += (c == '"' || c == '\\') ? '\'' : c;
+            o.puts("first", d);
+        }
+        printf("RESULT %s\n", o.str().c_str());
         return 0;
     }
     if (mode == "trunc") {
